@@ -2,7 +2,7 @@ SPECIFICATION Spec
 CONSTANTS
   Record = FALSE
   Scripts <- Scripts3
-  FaultChoices <- OneFault
+  FaultChoices <- Faults3
 
 INVARIANT EachOnce
 INVARIANT ReturnsAfterAll
